@@ -2,9 +2,13 @@
 
 A history (JSON-able) is
     {"observe": bool,                       # request carries Observe: 0
-     "events": [["M", t, code, obs|None, body, last] |      pipe.add_response(msg, is_last=last)
+     "events": [["M", t, code, obs|None, body, last(, cancels)] |  pipe.add_response(msg, is_last=last);
+                                                             `cancels` = 1: the application's callback calls
+                                                             observation.cancel() when it is handed this message
                 ["X", t, k]                           |      pipe.add_exception(EXC[k])
                 ["OC", t] | ["RC", t]],                      observation.cancel() / response.cancel()
+     "eb_cancels": bool,                    # the application's errback calls observation.cancel() on the
+                                            # observation it is being told the end of
      "iter": None | {"mode": "attentive"|"lazy"|"busy", "start": i, "work": k}}   async-iterator consumer
          (`async for` over request.observation, opened just before event `start`): "attentive" gets
          three event-loop iterations after every event, "lazy" is not scheduled at all until all
@@ -53,8 +57,7 @@ class Bench:
 
     def make_exc(self, k):
         e = self.error
-        # the token manager hands over the MessageError *class* (tokenmanager.py:245)
-        return [e.MessageError, e.ConRetransmitsExceeded(), e.NetworkError("harness"),
+        return [e.MessageError(), e.ConRetransmitsExceeded(), e.NetworkError("harness"),
                 e.LibraryShutdown(), e.ConToMulticast(), RuntimeError("harness")][k]
 
     def reset_ticks(self):
@@ -91,11 +94,22 @@ class Bench:
 
         req._stop_interest = stop
         pipe.on_interest_end(lambda: state.__setitem__("ended", state["ended"] + 1))
+        cancel_on = {str(ev[4]).encode() for ev in h["events"] if ev[0] == "M" and len(ev) > 6 and ev[6]}
+
+        def app_callback(m):
+            cur.append(("cb", m))
+            if m.payload in cancel_on:
+                # the application, from inside its callback
+                req.observation.cancel()
+
         if req.observation is not None:
-            req.observation.register_callback(lambda m: cur.append(("cb", m)),
-                                              _suppress_deprecation=True)
-            req.observation.register_errback(lambda e: cur.append(("eb", e)),
-                                             _suppress_deprecation=True)
+            req.observation.register_callback(app_callback, _suppress_deprecation=True)
+            def app_errback(e):
+                cur.append(("eb", e))
+                if h.get("eb_cancels"):
+                    req.observation.cancel()
+
+            req.observation.register_errback(app_errback, _suppress_deprecation=True)
 
         it = h.get("iter") if req.observation is not None else None
         iter_out = []
@@ -168,14 +182,15 @@ class Bench:
         else:
             impl = " ".join(f"{','.join(ds) or '.'}/{'E' if ended else '-'}"
                             for ds, ended in groups) or "-"
-        return {"groups": groups, "impl": impl, "raw": raw, "iter": iter_out,
+        return {"groups": groups, "impl": impl, "raw": raw, "iter": iter_out, "Error": self.error.Error,
                 "escaped": escaped, "ended_calls": state["ended"],
                 "response": ("cancelled" if req.response.cancelled() else
                              "done" if req.response.done() else "pending")}
 
     @staticmethod
     def exc_name(e):
-        return e.__name__ if isinstance(e, type) else type(e).__name__
+        # (an exception *class* handed over in place of an instance is not the exception of that name)
+        return "class:" + e.__name__ if isinstance(e, type) else type(e).__name__
 
     def delivery_str(self, d):
         if d[0] in ("resp", "cb"):
@@ -183,12 +198,13 @@ class Bench:
             obs = "-" if m.opt.observe is None else str(m.opt.observe)
             return f"{d[0]}:{int(m.code)}:{obs}:{int(m.payload.decode() or 0)}"
         if d[0] == "rexc":
-            return f"rexc:{EXC_NAMES.index(self.exc_name(d[1]))}"
+            n = self.exc_name(d[1])
+            return f"rexc:{EXC_NAMES.index(n)}" if n in EXC_NAMES else "rexc:?" + n
         if d[0] == "eb":
             n = self.exc_name(d[1])
             if n in ("NotObservable", "ObservationCancelled"):
                 return "eb:" + n
-            return f"eb:T{EXC_NAMES.index(n)}"
+            return f"eb:T{EXC_NAMES.index(n)}" if n in EXC_NAMES else "eb:?" + n
         return "stop"
 
 
@@ -196,7 +212,8 @@ def driver_line(reset, h):
     toks = []
     for ev in h["events"]:
         if ev[0] == "M":
-            toks.append(f"M@{ev[1]}:{ev[2]}:{'-' if ev[3] is None else ev[3]}:{ev[4]}:{1 if ev[5] else 0}")
+            toks.append(f"M@{ev[1]}:{ev[2]}:{'-' if ev[3] is None else ev[3]}:{ev[4]}:{1 if ev[5] else 0}" +
+                        (":1" if len(ev) > 6 and ev[6] else ""))
         elif ev[0] == "X":
             toks.append(f"X@{ev[1]}:{ev[2]}")
         else:
@@ -223,159 +240,220 @@ def rfc_fresher(v1, t1, v2, t2):
     return t2 > t1 + RFC_RESET_TICKS
 
 
-def same_exc(got, sent):
-    """a future that was given an exception *class* raises an instance of it"""
-    return isinstance(got, sent) if isinstance(sent, type) else got is sent
+def is_notification(code, obs):
+    """RFC 7641 §4.2 ("non-2.xx responses do not include an Observe Option") and the property's "a response
+    without Observe option (as every non-2.xx one is)": a notification is a 2.xx response that carries an
+    Observe option; every other response is the final one, whatever options a server put on it"""
+    return obs is not None and 64 <= code < 96
+
+
+def cancels(ev):
+    return ev[0] == "M" and len(ev) > 6 and bool(ev[6])
 
 
 def oracle_history(h, res):
-    """-> (verdict, key) ; ("", None) when the property holds on this observation"""
-    if any(ev[0] in ("OC", "RC") for ev in h["events"]):
-        return oracle_app_events(h, res)
-    if res["escaped"]:
-        i, n = res["escaped"][0]
-        return f"{n} escaped from the pipe into the transport at event {i}", "escaped"
-    observing = False      # an observation is established
-    over = False           # the request/observation is over
-    last = None            # (V1, T1) of the last notification handed to the application
+    """-> (verdict, key) ; ("", None) when the property holds on this observation.
+
+    One pass over the events with what the property says has to come out of each: the first response
+    completes the request and establishes the observation or ends it as not observable; a notification is
+    handed over iff fresher than the last one handed over; a response that is not a notification is handed
+    over and followed by the cancellation signal; a transport failure is passed on; every end is signalled
+    once, with an exception *instance*, and nothing follows it.  Application calls: an observation the
+    application cancelled (`observation.cancel()` between events or from inside the callback it is handed a
+    message in) is over — nothing is signalled to its listeners afterwards and nothing is raised into
+    whoever delivers an event, while the response future still completes; `response.cancel()` before the
+    first response ends the observation, once, with an error derived from `error.Error` (so that an
+    `async for` over it ends), later it changes nothing."""
+    evs = h["events"]
+    Err = res["Error"]
+    app_events = any(ev[0] in ("OC", "RC") or cancels(ev) for ev in evs) or bool(h.get("eb_cancels"))
+    misused_at = set()
+    for i, n in res["escaped"]:
+        if evs[i][0] in ("M", "X"):
+            if app_events:
+                return (f"{n} raised into the deliverer of event {i} ({evs[i][0]})"), "escaped-after-cancel"
+            return f"{n} escaped from the pipe into the transport at event {i}", "escaped"
+        # raised in the application's own call (cancel() twice / on an observation that has ended / on a
+        # request without observation): the application's misuse, nothing the property speaks about
+        misused_at.add(i)
+    phase = "first"            # "first" | "observing" | "over" (the request's pipe has ended)
+    app_cancelled = False      # the application cancelled the observation
+    resp_cancelled = False
+    misuse = False
+    last = None                # (V1, T1) of the last notification handed to the application
     errbacks = 0
-    for i, (ev, (obj, dels, ended)) in enumerate(zip(h["events"], res["raw"])):
+    for i, (ev, (obj, dels, ended)) in enumerate(zip(evs, res["raw"])):
         kinds = [d[0] for d in dels]
         t = ev[1]
-        if over:
+        for d in dels:
+            if d[0] in ("eb", "rexc") and not isinstance(d[1], BaseException):
+                return (f"event {i}: the application was handed {d[1]!r} as the error, which is not an "
+                        "exception instance"), "error-not-instance"
+        if i in misused_at:
+            misuse = True
+        if misuse:
+            if app_cancelled and [k for k in kinds if k in ("cb", "eb")]:
+                return f"delivery {kinds} after the application cancelled", "after-cancel"
+            if ev[0] == "OC":
+                app_cancelled = True
+            continue
+        if ev[0] == "OC":
             if dels:
-                return f"event {i} after the end still delivered {kinds}", "after-end"
+                return f"observation.cancel() caused {kinds}", "after-cancel"
+            app_cancelled = True
+            continue
+        if ev[0] == "RC":
+            if phase != "first" or resp_cancelled:
+                if dels:
+                    return f"response.cancel() on a completed request caused {kinds}", "spurious"
+                continue
+            resp_cancelled = True
+            ebs = [d for d in dels if d[0] == "eb"]
+            if [k for k in kinds if k not in ("eb", "stop")]:
+                return f"response.cancel() caused {kinds}", "response-cancelled"
+            if h["observe"] and not app_cancelled:
+                if len(ebs) != 1 or not isinstance(ebs[0][1], Err):
+                    return ("request.response was cancelled before the first response: the observation has to "
+                            "be ended, once, with an error derived from error.Error (whoever iterates over it "
+                            f"waits for ever otherwise); errbacks got {[Bench.exc_name(d[1]) for d in ebs]}"
+                            ), "response-cancelled"
+                errbacks += 1
+            elif ebs:
+                return f"response.cancel() signalled {kinds} to a cancelled observation", "after-cancel"
+            if not ended:
+                return "request given up, but the pipe still has interest", "not-ended"
+            phase = "over"
+            continue
+        # ---- pipe events
+        if phase == "over":
+            if dels:
+                return (f"event {i} after the end still delivered {kinds}",
+                        "after-cancel" if app_cancelled else "after-end")
             continue
         if not ended and (ev[0] == "X" or ev[5]):
             return f"pipe still has interest after the last event {i}", "not-ended"
-        if i == 0:
+        notif = ev[0] == "M" and is_notification(ev[2], ev[3])
+        if phase == "first":
             # the first response completes the request
             if ev[0] == "M":
                 if not dels or dels[0][0] != "resp" or dels[0][1] is not obj:
                     return "first response did not complete the response future", "first-response"
-                rest = dels[1:]
-                no_obs = ev[3] is None or ev[5]
-            else:
-                if not dels or dels[0][0] != "rexc" or not same_exc(dels[0][1], obj):
-                    return "transport failure did not fail the response future", "first-response"
-                rest = dels[1:]
-                rk = [d[0] for d in rest]
-                if h["observe"]:
-                    # "... and with a network error on transport failure"
-                    if len(rest) != 1 or rest[0][0] != "eb" or rest[0][1] is not obj:
-                        got = [Bench.exc_name(d[1]) if d[0] == "eb" else d[0] for d in rest]
-                        return (f"transport failure of the initial request: expected the observation "
-                                f"to end with that error, got {got}"), "first-network-error"
-                    errbacks += 1
-                elif [k for k in rk if k != "stop"]:
-                    return f"plain request delivered {rk}", "plain-request"
-                over = True
-                continue
+            elif not dels or dels[0][0] != "rexc" or dels[0][1] is not obj:
+                return "transport failure did not fail the response future", "first-response"
+            rest = dels[1:]
             rk = [d[0] for d in rest]
+            goes_on = notif and not ev[5]
             if not h["observe"]:
                 if [k for k in rk if k != "stop"]:
                     return f"plain request delivered {rk}", "plain-request"
-                over = True
+                phase = "over"
                 if not ended:
                     return "plain request still interested after its response", "not-ended"
-                continue
-            if no_obs:
+            elif app_cancelled:
+                if [k for k in rk if k in ("cb", "eb")]:
+                    return f"delivery {rk} after the application cancelled", "after-cancel"
+                if goes_on:
+                    phase = "observing"      # the runner withdraws at the next event
+                else:
+                    phase = "over"
+                    if not ended:
+                        return "request over, but the pipe still has interest", "not-ended"
+            elif ev[0] == "X":
+                # "... and with a network error on transport failure"
+                if len(rest) != 1 or rest[0][0] != "eb" or rest[0][1] is not obj:
+                    got = [Bench.exc_name(d[1]) if d[0] == "eb" else d[0] for d in rest]
+                    return (f"transport failure of the initial request: expected the observation "
+                            f"to end with that error, got {got}"), "first-network-error"
+                errbacks += 1
+                phase = "over"
+            elif not goes_on:
                 ebs = [d for d in rest if d[0] == "eb"]
-                if len(ebs) != 1 or Bench.exc_name(ebs[0][1]) != "NotObservable":
-                    return ("first response without Observe: expected exactly one NotObservable, got "
+                if len(ebs) != 1 or Bench.exc_name(ebs[0][1]) != "NotObservable" or not isinstance(ebs[0][1], Err):
+                    what = ("without Observe" if ev[3] is None else
+                            f"with code {ev[2]} (not 2.xx) and Observe {ev[3]}" if not notif else "marked last")
+                    return (f"first response {what}: expected exactly one NotObservable, got "
                             f"{[Bench.exc_name(d[1]) for d in ebs]}"), "not-observable"
                 if "cb" in rk:
                     return "callback on a non-observable resource", "not-observable"
                 errbacks += 1
-                over = True
+                phase = "over"
                 if not ended:
                     return "not observable, but the pipe still has interest", "not-ended"
             else:
                 if rest:
                     return f"first notification caused {rk}", "first-response"
-                observing = True
+                phase = "observing"
                 last = (ev[3], t)
             continue
-        # i > 0, observation established
-        if not observing:
-            return "internal: state", "oracle"
+        # ---- phase == "observing"
+        if app_cancelled:
+            if [k for k in kinds if k != "stop"]:
+                return f"delivery {kinds} after the application cancelled", "after-cancel"
+            if not ended:
+                return "observation cancelled by the application, but the pipe still has interest", "not-ended"
+            phase = "over"
+            continue
         if ev[0] == "X":
             if len(dels) != 1 or dels[0][0] != "eb" or dels[0][1] is not obj:
                 return f"transport failure during observation gave {kinds}", "network-error"
             errbacks += 1
-            over = True
+            phase = "over"
             continue
-        v2 = ev[3]
-        if v2 is None:
+        if not notif:
             # final response, then the cancellation signal
-            if (len(dels) < 2 or dels[0][0] != "cb" or dels[0][1] is not obj or dels[1][0] != "eb"
-                    or Bench.exc_name(dels[1][1]) != "ObservationCancelled"
-                    or [k for k in kinds[2:] if k != "stop"]):
-                return f"response without Observe gave {kinds}", "final-response"
-            errbacks += 1
-            over = True
+            what = "without Observe" if ev[3] is None else f"with code {ev[2]} (not 2.xx) and Observe {ev[3]}"
+            if not dels or dels[0][0] != "cb" or dels[0][1] is not obj:
+                return f"response {what}: not handed over as the final response ({kinds})", "final-response"
+            if cancels(ev):
+                if [k for k in kinds[1:] if k != "stop"]:
+                    return (f"the application cancelled from inside the callback on the final response, then "
+                            f"{kinds[1:]}"), "after-cancel"
+                app_cancelled = True
+            else:
+                if (len(dels) < 2 or dels[1][0] != "eb" or Bench.exc_name(dels[1][1]) != "ObservationCancelled"
+                        or not isinstance(dels[1][1], Err) or [k for k in kinds[2:] if k != "stop"]):
+                    return f"response {what} gave {kinds}", "final-response"
+                errbacks += 1
+            phase = "over"
             if not ended:
                 return "observation over, but the pipe still has interest", "not-ended"
             continue
+        v2 = ev[3]
         fresh = rfc_fresher(last[0], last[1], v2, t)
         cbs = [d for d in dels if d[0] == "cb"]
         if fresh:
-            if len(cbs) != 1 or cbs[0][1] is not obj:
+            if len(cbs) != 1 or cbs[0][1] is not obj or kinds[0] != "cb":
                 return (f"notification {v2}@{t} is fresher than the last delivered {last[0]}@{last[1]} "
                         "but was not handed over"), "fresh-dropped"
             last = (v2, t)
+            kinds = kinds[1:]
         elif cbs:
             return (f"notification {v2}@{t} is not fresher than the last delivered {last[0]}@{last[1]} "
                     "but was handed over"), "stale-delivered"
-        if kinds and kinds[0] == "cb":
-            kinds = kinds[1:]
+        if fresh and cancels(ev):
+            if [k for k in kinds if k != "stop"]:
+                return f"the application cancelled from inside the callback, then {kinds}", "after-cancel"
+            app_cancelled = True
+            if ev[5]:
+                phase = "over"
+            continue
         if ev[5]:
-            if kinds != ["eb"] or Bench.exc_name(dels[-1][1]) != "ObservationCancelled":
+            if kinds != ["eb"] or Bench.exc_name(dels[-1][1]) != "ObservationCancelled" \
+                    or not isinstance(dels[-1][1], Err):
                 return f"last notification gave {[d[0] for d in dels]}", "final-response"
             errbacks += 1
-            over = True
+            phase = "over"
         elif kinds:
             return f"notification caused {kinds}", "spurious"
     total_eb = sum(1 for (_, dels, _) in res["raw"] for d in dels if d[0] == "eb")
-    if total_eb != errbacks or total_eb > 1:
+    if total_eb > 1 or (not misuse and total_eb != errbacks):
         return f"{total_eb} termination signals", "end-count"
     if res["ended_calls"] > 1:
         return "interest ended twice", "end-count"
+    if misuse or app_cancelled:
+        return "", None     # what an iteration over a cancelled observation does is not claimed
     v, k = oracle_iterator(h, res)
     return v, k
-
-
-def oracle_app_events(h, res):
-    """the application cancelled the observation (`observation.cancel()`) or the request
-    (`response.cancel()`): an observation cancelled by the application is over — afterwards nothing
-    is signalled to its listeners and nothing is raised into whoever delivers an event; the response
-    future still completes with the first response / the transport's error unless it was cancelled
-    itself; at most one termination signal"""
-    for i, n in res["escaped"]:
-        if h["events"][i][0] in ("M", "X"):
-            return (f"{n} raised into the deliverer of event {i} ({h['events'][i][0]})"), "escaped-after-cancel"
-    obs_cancelled = resp_cancelled = False
-    first_pipe = True
-    for i, (ev, (obj, dels, ended)) in enumerate(zip(h["events"], res["raw"])):
-        if obs_cancelled and [d for d in dels if d[0] in ("cb", "eb")]:
-            return f"delivery {[d[0] for d in dels]} after the application cancelled", "after-cancel"
-        if ev[0] in ("M", "X") and first_pipe:
-            first_pipe = False
-            if not resp_cancelled:
-                ok = (dels and ((ev[0] == "M" and dels[0][0] == "resp" and dels[0][1] is obj) or
-                                (ev[0] == "X" and dels[0][0] == "rexc" and same_exc(dels[0][1], obj))))
-                if not ok:
-                    return ("the first event did not complete the response future "
-                            f"({[d[0] for d in dels]})"), "first-response"
-        if ev[0] == "OC":
-            obs_cancelled = True
-        if ev[0] == "RC" and first_pipe:
-            resp_cancelled = True
-            obs_cancelled = True       # nobody is left to receive anything
-    total_eb = sum(1 for (_, dels, _) in res["raw"] for d in dels if d[0] == "eb")
-    if total_eb > 1:
-        return f"{total_eb} termination signals", "end-count"
-    return "", None
 
 
 def oracle_iterator(h, res):
